@@ -252,7 +252,11 @@ pub fn run_case(ctx: &mut Ctx, case: &Value) {
     let ds0: Vec<String> = discs0.as_array().map(|a| a.iter().filter_map(|d| d.as_str().map(|s| s.to_string())).collect()).unwrap_or_default();
     // the model is told the `cnf` value as written when it names the requested key in either accepted form
     let cnf_j = if kb { if cnf_is_key(payload0.get("cnf"), &jwk) { payload0["cnf"].clone() } else { jwk.clone() } } else { Value::Null };
-    let probe = ctx.driver.ask(&json!({"op":"issue","claims":claims,"paths":paths,"discs":discs0,"decoys":Value::Null,"cnf":cnf_j}));
+    // the digest algorithm is none of C14's business (C07: "under the declared `_sd_alg`"): the model recomputes the
+    // digests under the algorithm the real payload declares and is compared modulo the value of `_sd_alg`
+    let alg_decl = crate::tree::declared_sd_alg(&payload0).filter(|a| a == "sha-384" || a == "sha-512").unwrap_or_else(|| "sha-256".to_string());
+    if alg_decl != "sha-256" { ctx.report.bump("issued:digest-algorithm-other-than-model"); }
+    let probe = ctx.driver.ask(&json!({"op":"issue","alg":alg_decl,"claims":claims,"paths":paths,"discs":discs0,"decoys":Value::Null,"cnf":cnf_j}));
     let mut drawn: Vec<String> = Vec::new();
     let model_first = if first_ok {
         let alg0 = crate::tree::declared_sd_alg(&payload0).unwrap_or_else(|| "sha-256".to_string());
@@ -267,14 +271,14 @@ pub fn run_case(ctx: &mut Ctx, case: &Value) {
         } else if !drawn.is_empty() {
             ctx.report.diff("property", "Issuer::encode", "Issuer::encode:decoy-count", &c2, json!({"max": Value::Null, "drawn": drawn.len()}));
         }
-        ctx.driver.ask(&json!({"op":"issue","claims":claims,"paths":paths,"discs":discs0,"decoys":drawn,"cnf":cnf_j}))
+        ctx.driver.ask(&json!({"op":"issue","alg":alg_decl,"claims":claims,"paths":paths,"discs":discs0,"decoys":drawn,"cnf":cnf_j}))
     } else { probe };
     let mclass = if model_first.get("ok").is_some() { "ok" } else if model_first.get("err").is_some() { "err" } else { "panic" };
     if (mclass == "ok") != first_ok {
         ctx.report.diff("correspondence", "Issuer::encode", &format!("Issuer::encode:class:real-{}:model-{}", if first_ok { "ok" } else { "err" }, mclass), &c2,
             json!({"real": outs[0].0.as_ref().err(), "model": model_first, "kind": kind}));
     } else if first_ok {
-        let with_exp = |m: &Value| { let mut mp = m["ok"]["payload"].clone(); if let (Some(e), Some(o)) = (payload0.get("exp"), mp.as_object_mut()) { o.insert("exp".into(), e.clone()); } mp };
+        let with_exp = |m: &Value| { let mut mp = m["ok"]["payload"].clone(); if let (Some(e), Some(o)) = (payload0.get("exp"), mp.as_object_mut()) { o.insert("exp".into(), e.clone()); if alg_decl != "sha-256" && o.contains_key("_sd_alg") { o.insert("_sd_alg".into(), json!(alg_decl)); } } else if let Some(o) = mp.as_object_mut() { if alg_decl != "sha-256" && o.contains_key("_sd_alg") { o.insert("_sd_alg".into(), json!(alg_decl)); } } mp };
         let mut mp = with_exp(&model_first);
         // the model puts the decoys into the top-level `_sd`; the property does not say where they go
         let same = |a: &Value, b: &Value, drawn: &[String]| real::canon_sd(a) == real::canon_sd(b)
@@ -295,7 +299,7 @@ pub fn run_case(ctx: &mut Ctx, case: &Value) {
             for a in 0..by_digest.len() { for b in a + 1..by_digest.len() { let mut c = by_digest.clone(); c.swap(a, b); candidates.push(c); } }
             for cand in candidates.into_iter().take(200) {
                 if cand == ds0 { continue; }
-                let again = ctx.driver.ask(&json!({"op":"issue","claims":claims,"paths":paths,"discs":cand,"decoys":drawn,"cnf":cnf_j}));
+                let again = ctx.driver.ask(&json!({"op":"issue","alg":alg_decl,"claims":claims,"paths":paths,"discs":cand,"decoys":drawn,"cnf":cnf_j}));
                 if again.get("ok").is_some() && same(&with_exp(&again), &payload0, &drawn) {
                     ctx.report.bump("issued:disclosures-not-in-path-order");
                     mp = with_exp(&again);
